@@ -35,6 +35,9 @@ struct Out {
     int levels = 0;
     std::string opdiff;                          // "" when the level-0 operator held by the solver == the scalar matrix
     std::vector<double> pact;                    // action of the preconditioner on the right-hand side (scalar reference and hybrid path)
+    // second call S(A, rhs, x) on the same solver AND the same matrix object after its values were updated in place
+    // (diagonal entries times 1.25): filled by the block_solver path for form 1
+    bool second = false; size_t iters2 = 0; double resid2 = 0; std::vector<double> x2;
 };
 typedef Out (*Runner)(const Req &);
 struct Path { std::string name; int b; std::string btype; Runner run; };
